@@ -396,15 +396,20 @@ def configs(kinds=KINDS, caches=CACHES):
 
 def histories(nnames, nversions, lengths, kinds=KINDS, caches=CACHES, full=True):
     """Every history of the given lengths whose last operation is a fetch (a history ending in a store
-    operation makes the same observations as its prefix)."""
+    operation makes the same observations as its prefix), as (nnames, history, kinds, caches)."""
     fetch, other = alphabet(nnames, nversions, full)
     ops = fetch + other
     for n in lengths:
         for head in itertools.product(ops, repeat=n - 1):
             for last in fetch:
-                hist = list(head) + [last]
-                for kind, cap, auto in configs(kinds, caches):
-                    yield {"loader": kind, "cache": cap, "auto_reload": auto, "names": nnames, "ops": hist}
+                yield nnames, list(head) + [last], kinds, caches
+
+
+def expand(hists):
+    """One case per configuration for every history."""
+    for nnames, hist, kinds, caches in hists:
+        for kind, cap, auto in configs(kinds, caches):
+            yield {"loader": kind, "cache": cap, "auto_reload": auto, "names": nnames, "ops": hist}
 
 
 def _run_machine(ctx, rec, max_examples, steps, tag):
@@ -518,7 +523,7 @@ def run_shard(spec, ctx):
     rec = core.Rec()
     _keep_dirs[0] = True
     try:
-        core.enum_shard(core.sliced(all_enumerated(ctx.tier), ctx.index, ctx.nshards), check_case, ctx, rec=rec)
+        core.enum_shard(expand(core.sliced(all_enumerated(ctx.tier), ctx.index, ctx.nshards)), check_case, ctx, rec=rec)
         if not rec.violations:
             _run_machine(ctx, rec, ctx.pick(10, 120), 100, "machine")
     finally:
